@@ -297,7 +297,7 @@ def check_logging(spec, stats=None):
 
 
 def small_run(maxfun_hi):
-    return run_spec(families=ALL_FAMILIES, n_max=5, jac_modes=("callable", "callable", "2-point"), maxiter=(1, 6), maxfun=(2, maxfun_hi), small_ls=True,
+    return run_spec(families=ALL_FAMILIES, n_max=5, jac_modes=("callable", "callable", "2-point"), maxiter=(1, 6), maxfun=(2, maxfun_hi), small_ls=True, units=True,
                     ftols=(0.0,), gtols=(1e-8,), with_scaler=True)
 
 
@@ -308,7 +308,7 @@ def pair_strategy(draw, maxfun_hi, cap):
 
 @st.composite
 def inputs_strategy(draw):
-    r = draw(run_spec(families=ALL_FAMILIES, n_max=6, jac_modes=("callable", "callable", None), maxiter=(1, 10), maxfun=(3, 60), ftols=(0.0, 1e-12), gtols=(1e-8,), with_scaler=True))
+    r = draw(run_spec(families=ALL_FAMILIES, n_max=6, jac_modes=("callable", "callable", None), maxiter=(1, 10), maxfun=(3, 60), ftols=(0.0, 1e-12), gtols=(1e-8,), with_scaler=True, units=True))
     return {"run": r, "variant": draw(st.sampled_from(["readonly", "readonly", "list-bounds", "plain"])), "int_x0": draw(st.booleans()),
             "ck_readonly": draw(st.booleans()), "restart_scaler": draw(st.sampled_from([None, None, 0.5, 4.0])), "extra_iter": draw(st.integers(0, 3))}
 
